@@ -375,8 +375,11 @@ func concJobs(prop string, tier string) []Job {
 		if tier == "thorough" {
 			delay = 3
 		}
-		jobs = append(jobs, Job{Name: fmt.Sprintf("%s/conc/%s/%s/delay%d", prop, d.cfg, d.name, delay), Shards: 4, Run: func(jc *JobCtx) { runConcDriver(jc, prop, d, vrt.CostDelay, delay) }})
-		if tier == "thorough" || (di == 0 && prop != "C10") {
+		if prop == "C05" && tier != "thorough" && d.cfg.mm {
+			continue // quick: Go-managed memory (user-managed memory during a delta backup is C04's S7 driver)
+		}
+		jobs = append(jobs, Job{Name: fmt.Sprintf("%s/conc/%s/%s/delay%d", prop, d.cfg, d.name, delay), Shards: 8, Run: func(jc *JobCtx) { runConcDriver(jc, prop, d, vrt.CostDelay, delay) }})
+		if tier == "thorough" || (di == 0 && prop != "C10" && prop != "C05") {
 			shards := 8
 			if tier == "thorough" {
 				shards = 16
